@@ -457,7 +457,7 @@ func (x *Exec) applyContract(p *Path, ct *Contract, vars map[string]SV, results 
 				}
 				p.assume(fmt.Sprintf("(forall (%s) (! (=> %s (and %s)) :pattern (%s)))", strings.Join(decl, " "), pr, strings.Join(post_, " "), raw))
 			}
-			if len(cc.Each)+len(cc.Others) > 0 {
+			if len(cc.Each)+len(cc.Others)+len(cc.Appends) > 0 {
 				// the closure must not write the container the callee is traversing
 				if ego, ok := vars["ego"]; ok {
 					var cf frameSet
@@ -612,6 +612,66 @@ func (x *Exec) applyContract(p *Path, ct *Contract, vars map[string]SV, results 
 			p.wfKnown = post
 		}
 	}
+	// (c'') sequence-accumulating closures (contract with appends clauses): after the call the captured slice has
+	// grown by one element per invocation, the old elements are kept, and element L0+j satisfies the fact for the
+	// arguments of invocation j (induction over the invocations; each step is an obligation of the closure)
+	for _, ci := range clos {
+		cc := ci.cc
+		prms := ci.fv.Fn.Fn.Params
+		for _, ac := range cc.Appends {
+			penv := *ci.cenv
+			penv.H = post
+			penv.H0 = pre
+			preEnv := *ci.cenv
+			preEnv.H = pre
+			preEnv.H0 = pre
+			lenE, _ := parseSpec("len(" + ac.SliceSrc + ")")
+			l0, err0 := (&preEnv).evalSV(lenE)
+			l1, err1 := (&penv).evalSV(lenE)
+			if err0 != nil || err1 != nil {
+				x.errorf("%s: closure appends: %v %v", cc.Func, err0, err1)
+				continue
+			}
+			t0 := fmt.Sprintf("(TrLen %s)", pre)
+			t1 := fmt.Sprintf("(TrLen %s)", post)
+			p.assume(fmt.Sprintf("(= %s (+ %s (- %s %s)))", l1.T, l0.T, t1, t0))
+			if pe, err := parseSpec(fmt.Sprintf("forall ap_j int :: 0 <= ap_j && ap_j < old(len(%s)) ==> %s[ap_j] == old(%s[ap_j])", ac.SliceSrc, ac.SliceSrc, ac.SliceSrc)); err == nil {
+				if t, err := (&penv).evalBool(pe); err == nil {
+					p.assume(t)
+				}
+			}
+			jenv := (&penv).with("ap_kv", term("ap_k", SInt))
+			for i, prm := range prms {
+				if i < 2 {
+					arr := "TrA"
+					if i == 1 {
+						arr = "TrB"
+					}
+					jenv = jenv.with(prm.Name(), unwrapElem(prm.Type(), fmt.Sprintf("(select (%s %s) (+ %s (- ap_k %s)))", arr, post, t0, l0.T)))
+				}
+			}
+			elE, _ := parseSpec(ac.SliceSrc + "[ap_kv]")
+			el, err2 := jenv.evalSV(elE)
+			fe, err3 := parseSpec(substWord(ac.FactSrc, ac.Var, "("+ac.SliceSrc+"[ap_kv])"))
+			if err2 != nil || err3 != nil {
+				x.errorf("%s: closure appends: %v %v", cc.Func, err2, err3)
+				continue
+			}
+			if t, err := jenv.evalBool(fe); err == nil {
+				p.assume(fmt.Sprintf("(forall ((ap_k Int)) (! (=> (and (<= %s ap_k) (< ap_k %s)) %s) :pattern (%s)))", l0.T, l1.T, t, el.T))
+			} else {
+				x.errorf("%s: closure appends fact: %v", cc.Func, err)
+			}
+			// argument-independent preconditions of the closure are preserved by every invocation
+			for _, rq := range cc.Requires {
+				if !mentionsAny(rq.E, prms) {
+					if t, err := (&penv).evalBool(rq.E); err == nil {
+						p.assume(t)
+					}
+				}
+			}
+		}
+	}
 	// (c') accumulating closures (contract with each / others clauses): facts per invocation key
 	for _, ci := range clos {
 		cc := ci.cc
@@ -684,7 +744,7 @@ func (x *Exec) applyContract(p *Path, ct *Contract, vars map[string]SV, results 
 	}
 	// (c) effect of the known closures: established by the last invocation, untouched when never invoked
 	for _, ci := range clos {
-		if len(ci.cc.Each)+len(ci.cc.Others) > 0 {
+		if len(ci.cc.Each)+len(ci.cc.Others)+len(ci.cc.Appends) > 0 {
 			continue
 		}
 		calls := fmt.Sprintf("(- (TrLen %s) (TrLen %s))", post, pre)
@@ -708,6 +768,7 @@ func (x *Exec) applyContract(p *Path, ct *Contract, vars map[string]SV, results 
 		}
 	}
 	eenv := &SpecEnv{x: x, vars: env.vars, H: post, H0: pre, HN: pre}
+	restoreTrace := ct.Flags["callbacks"] && !x.cur.ct.Flags["callbacks"] && !ct.Flags["pure"]
 	if results != nil && results.Len() > 0 {
 		var rs []SV
 		for i := 0; i < results.Len(); i++ {
@@ -745,6 +806,19 @@ func (x *Exec) applyContract(p *Path, ct *Contract, vars map[string]SV, results 
 			return SV{}, false
 		}
 		p.assume(s)
+	}
+	if restoreTrace {
+		// the ghost trace is a log per activation: the entries pushed by this callee (described by its
+		// postcondition over the heap `post`) are popped again, so that a function that is not itself a
+		// `callbacks` function leaves the trace of its own caller untouched
+		x.updMulti(p, map[string]string{
+			"TrA":   fmt.Sprintf("(TrA %s)", pre),
+			"TrB":   fmt.Sprintf("(TrB %s)", pre),
+			"TrLen": fmt.Sprintf("(TrLen %s)", pre)})
+		if p.wfKnown != "" {
+			p.assume(fmt.Sprintf("(wf %s)", p.H))
+			p.wfKnown = p.H
+		}
 	}
 	p.desc = append(p.desc, site)
 	return result, true
